@@ -2,11 +2,40 @@ module verifharness
 
 go 1.22
 
-require github.com/cube2222/octosql v0.0.0
+require (
+	github.com/cube2222/octosql v0.0.0
+	github.com/valyala/fastjson v1.6.3
+	google.golang.org/protobuf v1.30.0
+)
 
 require (
+	github.com/Masterminds/semver v1.5.0 // indirect
+	github.com/adrg/xdg v0.4.0 // indirect
+	github.com/awalterschulze/gographviz v2.0.3+incompatible // indirect
+	github.com/cespare/xxhash v1.1.0 // indirect
+	github.com/dgraph-io/ristretto v0.0.3 // indirect
+	github.com/fsnotify/fsnotify v1.4.9 // indirect
+	github.com/golang/protobuf v1.5.3 // indirect
 	github.com/google/btree v1.1.2 // indirect
+	github.com/gosuri/uilive v0.0.4 // indirect
+	github.com/mattn/go-runewidth v0.0.13 // indirect
+	github.com/mitchellh/go-homedir v1.1.0 // indirect
+	github.com/nxadm/tail v1.4.8 // indirect
+	github.com/oklog/ulid/v2 v2.0.2 // indirect
+	github.com/olekukonko/tablewriter v0.0.5 // indirect
+	github.com/pkg/errors v0.9.1 // indirect
+	github.com/rivo/uniseg v0.2.0 // indirect
 	github.com/segmentio/fasthash v1.0.3 // indirect
+	github.com/tidwall/btree v1.3.1 // indirect
+	github.com/zyedidia/generic v1.1.0 // indirect
+	golang.org/x/exp v0.0.0-20220414153411-bcd21879b8fd // indirect
+	golang.org/x/net v0.10.0 // indirect
+	golang.org/x/sys v0.8.0 // indirect
+	golang.org/x/text v0.9.0 // indirect
+	google.golang.org/genproto v0.0.0-20230306155012-7f2fa6fef1f4 // indirect
+	google.golang.org/grpc v1.55.0 // indirect
+	gopkg.in/tomb.v1 v1.0.0-20141024135613-dd632973f1e7 // indirect
+	gopkg.in/yaml.v3 v3.0.1 // indirect
 )
 
 replace github.com/cube2222/octosql => /repo
